@@ -1,6 +1,7 @@
 package main
 
 import (
+	"os"
 	"fmt"
 	"strings"
 	"go/token"
@@ -382,9 +383,18 @@ func (ex *executor) loopFrameObligation(li *loopInfo, st *state) {
 		for i, s := range cls.Key {
 			key[i] = FreshVar("lfk", s)
 		}
-		goals = append(goals, Implies(Not(lf.allowed(name, key)), Eq(h.Read(key), h0.Read(key))))
+		g := Implies(Not(lf.allowed(name, key)), Eq(h.Read(key), h0.Read(key)))
+		goals = append(goals, g)
+		if os.Getenv("GOVC_FRAME_SPLIT") != "" {
+			ex.addObligation(st, "loop-frame", fmt.Sprintf("loop %d class %s", li.index, shortFnKey(name)), Implies(st.pc, g), li.pos)
+		}
 	}
-	ex.addObligation(st, "loop-frame", fmt.Sprintf("loop %d assigns", li.index), Implies(st.pc, And(goals...)), li.pos)
+	fo := ex.addObligation(st, "loop-frame", fmt.Sprintf("loop %d assigns", li.index), Implies(st.pc, And(goals...)), li.pos)
+	if len(goals) > 1 {
+		for _, g := range goals {
+			fo.Parts = append(fo.Parts, Implies(st.pc, g))
+		}
+	}
 }
 
 func clauseLabel(c *Clause, i int) string {
